@@ -20,9 +20,17 @@ import (
 // the 12 lines of tcpPlayerConn.GetNextMessage (tcp_acceptor.go), verbatim.
 type pipeConn struct {
 	net.Conn
-	mu    sync.Mutex
-	stall chan struct{} // non-nil: the server→client direction is stalled; closed on resume
+	mu     sync.Mutex
+	stall  chan struct{}       // non-nil: the server→client direction is stalled; closed on resume
+	framer acceptor.PlayerConn // non-nil: GetNextMessage is the framer's (see Framing)
 }
+
+// Framing, when set before Connect, supplies the framing of the server end of every new
+// connection: GetNextMessage of the returned PlayerConn (built around the raw server end of the
+// pipe) replaces the verbatim copy below.  A harness that maps a white-box shim into package
+// acceptor (go test -overlay) sets it to the constructor of the REAL tcpPlayerConn, so that the
+// TCP acceptor's own stream reassembly is what the session's reader runs.
+var Framing func(net.Conn) acceptor.PlayerConn
 
 // Write blocks while the client "does not read" (Client.Stall), then writes.
 func (t *pipeConn) Write(b []byte) (int, error) {
@@ -36,6 +44,9 @@ func (t *pipeConn) Write(b []byte) (int, error) {
 }
 
 func (t *pipeConn) GetNextMessage() (b []byte, err error) {
+	if t.framer != nil {
+		return t.framer.GetNextMessage()
+	}
 	header, err := ioutil.ReadAll(io.LimitReader(t.Conn, codec.HeadLength))
 	if err != nil {
 		return nil, err
@@ -106,6 +117,9 @@ func (n *Node) Connect(front string) *Client {
 		enc: codec.NewPomeloPacketEncoder(), menc: message.NewMessagesEncoder(false)}
 	go c.reader()
 	c.srv = &pipeConn{Conn: srvEnd}
+	if Framing != nil {
+		c.srv.framer = Framing(srvEnd)
+	}
 	c.Session = session.NewClientSession(c.srv, cfg)
 	c.Session.Handle()
 	n.mu.Lock()
